@@ -1,0 +1,30 @@
+//go:build verif
+
+package gcsutil
+
+// Contracts of the GCS page token codec (property C11: the token carries the exclusive cursor; property
+// C20: no panic for any input). Checked by /verif/govc. Comments only. Owner: gcslist.
+//
+// Model (trusted specs in /verif/contracts/trusted/area_gcslist.spec, scope gcsutil):
+//   ufs_b64enc(b) / ufb_b64ok(s) / ufs_b64dec(s)   base64.StdEncoding, with the round-trip axiom b64RoundTrip
+//   ufb_ptWireOk(b) / ufs_ptLastFile(b)            proto.Unmarshal of a GcsPageToken from wire bytes b
+//   ufb_validUTF8(s)                               proto.Marshal of a proto3 string field fails exactly on invalid UTF-8
+
+//@ spec pageTokenOk(t string) bool = ufb_b64ok(t) && ufb_ptWireOk(ufs_b64dec(t))
+//@ spec pageTokenCursor(t string) string = ufs_ptLastFile(ufs_b64dec(t))
+
+// Property C11 (round trip): DecodePageToken(EncodePageToken(s)) == (s, nil).
+// Property C20: no panic for any input -- the explicit panic on a Marshal error is reachable for a name
+// that is not valid UTF-8 (see report D3), so that obligation is expected to stay red.
+//@ func EncodePageToken
+//@   property C11 C20
+//@   ensures pageTokenOk(result)
+//@   ensures pageTokenCursor(result) == greaterThan
+
+// Property C11/C20: a malformed token is reported as an error (the handler turns it into 400), a
+// well-formed one yields the cursor it carries.
+//@ func DecodePageToken
+//@   property C11 C20
+//@   ensures (result1 == nil) <==> pageTokenOk(pageToken)
+//@   ensures result1 == nil ==> result0 == pageTokenCursor(pageToken)
+//@   ensures result1 != nil ==> result0 == ""
